@@ -48,6 +48,31 @@ def decoder_cases():
                             L.append(("dec %s P%d:%d+%s rbs#,%s" % (kind, n, k, item[:keep].hex(), op), [None, "E:end"]))
                             if op != "sk" and keep == width and j < 3:
                                 L.append(("dec %s P%d:%d+%s rbs#,pk,%s" % (kind, n, k, item[:keep].hex(), op), [None, str(major << 5), "E:end"]))
+    # the end of input is reported again by every later call on the same decoder object (input lengths around the window
+    # multiples: the End then comes from a refill that reads nothing, not from eofbit)
+    for total in (0, 1, 1000, WIN - 1, WIN, WIN + 1, 2 * WIN, 2 * WIN + 1, 3 * WIN):
+        n = total - len(cborgen.head(2, max(total - 5, 0))) if total >= 24 else None
+        for kind in ("s+", "f+"):
+            if total == 0:
+                L.append(("dec %s - pk,ru,sk,pk,rbs,ras" % kind, ["E:end"] * 6))
+            elif n is not None and len(cborgen.head(2, n)) + n == total:
+                L.append(("dec %s P%d:7 rbs#,pk,ru,sk,pk,rbs,ras,rbk" % (kind, n), [None] + ["E:end"] * 7))
+                L.append(("dec %s P%d:7 sk,ru,pk,ri,sk" % (kind, n), ["ok"] + ["E:end"] * 4))
+    L.append(("dec u+ - pk,ru,sk,pk", ["E:end"] * 4))
+    # a definite-length string whose payload is cut short by the end of the input: reading AND skipping it report the end
+    for major, rd in ((2, "rbs#"), (3, "rts#")):
+        for n in (1, 10, 2048, WIN - 3, WIN, WIN + 1, 70000, 2 * WIN + 5):
+            for keep in sorted(set([0, 1, n // 2, n - 1])):
+                if keep >= n:
+                    continue
+                for pre in (0, WIN - 4):
+                    prefix = ("P%d:3+" % (pre - 5)) if pre else ""
+                    first = "rbs#," if pre else ""
+                    body = cborgen.head(major, n).hex() + ("+R%d:5" % keep if keep else "")
+                    for op in (rd, "sk"):
+                        kind = "sf"[(n + keep + major) & 1]
+                        L.append(("dec %s %s%s %s%s" % (kind, prefix, body, first, op), ([None] if pre else []) + ["E:end"]))
+                        L.append(("dec %s+ %s%s %s%s,pk,sk" % (kind, prefix, body, first, op), ([None] if pre else []) + ["E:end"] * 3))
     # many one-byte items across the boundary
     for total in (WIN - 1, WIN, WIN + 1, 2 * WIN):
         L.append(("dec s R%d:0 %s" % (0, "pk"), ["E:end"]))
@@ -79,6 +104,17 @@ def files(run, rng, quick):
         for oi, (data, err) in enumerate(r["plain"]):
             if data and r["rd"].get(oi, "").endswith(" EOF"):
                 out.append((data, r["rd"][oi][2:]))
+    # the same kind of file as another writer may lay it out: members the reader does not know (strings, nested containers,
+    # tags) in every map - the skipping code then sits at the cut points too
+    extra = []
+    for data, _ in out[:(3 if quick else 10)]:
+        try:
+            extra.append(cborgen.encode(cborgen.parse(data)[0], rng, 0.0, cborgen.unknown_member))
+        except Exception:
+            pass
+    for d2, a in zip(extra, G.run_rd(["rd s " + d.hex() for d in extra])):
+        if a and a.startswith("I ") and a.endswith(" EOF"):
+            out.append((d2, a[2:])); run.count("files with unknown members")
     return out
 
 
